@@ -475,3 +475,76 @@ def unit_trunc_shape(prop="C06"):
                             fname="GaborFilterBank.get_truncated_response", to_case=tc, replay_module="rtc.c06")
     unit.__name__ = "gabor_trunc_shape"
     return unit
+
+
+# ComplexGammatoneFilterBank.get_truncated_response: the same two clauses (start bin in [0, width); one value per bin of the support, or the
+# whole period), term level: np.arange / the in-place scaling / _H keep the number of bins.
+class _Bins:
+    def __init__(self, n, term):
+        self.n, self.term = n, term
+
+    def sym_len(self):
+        return self.n
+
+
+def contract_gamma_trunc_shape():
+    def h_arange(ex, st, args, kwargs, node, ev):
+        if len(args) != 2 or set(kwargs) - {"dtype"}:
+            raise Outside("np.arange form")
+        lo, hi = Z(args[0]), Z(args[1])
+        return _Bins(simp(z3.If(hi > lo, hi - lo, 0)), ("arange", lo, hi))
+
+    def h_binop(ex, st, op, a, b, n):
+        if isinstance(a, _Bins) and isinstance(op, (ast.Mult, ast.Add, ast.Div)):
+            return _Bins(a.n, ("scaled", a.term))
+        return NotImplemented
+
+    def h_H(ex, st, o, args, kwargs, node, ev):
+        if len(args) != 2 or kwargs or not isinstance(args[0], _Bins):
+            raise Outside("_H call form")
+        ex.oblige(st, args[1] is st.env["filt_idx"], f"response_of_this_filter.L{node.lineno - ex.fx.lineno}", "trace", node.lineno)
+        return _Bins(args[0].n, ("H", args[0].term))
+
+    def h_full(ex, st, o, args, kwargs, node, ev):
+        ok = len(args) == 2 and not kwargs and args[0] is st.env["filt_idx"] and args[1] is st.env["width"]
+        ex.oblige(st, ok, f"whole_period_is_the_full_response_of_this_filter_and_width.L{node.lineno - ex.fx.lineno}", "trace", node.lineno)
+        return _Bins(Z(st.env["width"]), ("full",))
+
+    def shape_ok(ev, res):
+        if not (isinstance(res, tuple) and len(res) == 2 and isinstance(res[1], _Bins)):
+            return z3.BoolVal(False)
+        w = ev.ex.ctx["w"]
+        return z3.And(Z(res[0]) >= 0, Z(res[0]) < w, Z(res[1].n) >= 0)
+
+    return Contract(
+        target="filters:ComplexGammatoneFilterBank.get_truncated_response", uses=["A-REAL", "A-PYSEM"],
+        consts={"np.pi": PI, "np.float64": Opaque("float64", "dtype"), "SHAPE_OK": SpecFn(shape_ok)},
+        handlers={"np.arange": h_arange, "binop": h_binop, "ComplexGammatoneFilterBank._H": h_H, "self._H": h_H,
+                  "ComplexGammatoneFilterBank.get_frequency_response": h_full, "self.get_frequency_response": h_full},
+        ensures=[("start_bin_in_range_one_value_per_bin", "SHAPE_OK(result)")],
+    )
+
+
+def unit_gamma_trunc_shape(prop="C06"):
+    def unit(tier, known):
+        from contracts.registry import run_contract
+        from contracts import filters_tri as T
+
+        def setup(ex, st):
+            _setup_resp("ComplexGammatoneFilterBank", False)(ex, st)
+            from pyvc.api import SeqVal
+            wrap = z3.Function("wrap_support_ang", I, R)
+            st.fields[("self", "_wrap_supports_ang")] = SeqVal(api.sym("num_filts"), lambda j: wrap(Z(j)))
+            st.env.pop("half", None)
+
+        def tc(ob):
+            out = []
+            for c in T.to_case_frequency(ob):
+                b = dict(c["bank"], bank="gamma")
+                b.pop("analytic", None)
+                out.append(dict(c, bank=b))
+            return out
+        return run_contract(prop, ("filters", "ComplexGammatoneFilterBank.get_truncated_response"), contract_gamma_trunc_shape(), [("", setup)],
+                            name="gamma_trunc_shape", fname="ComplexGammatoneFilterBank.get_truncated_response", to_case=tc, replay_module="rtc.c06")
+    unit.__name__ = "gamma_trunc_shape"
+    return unit
